@@ -159,8 +159,8 @@ def build(c, V, **over):
 def valid_input(c):
     """Inputs the docstrings accept for this estimator (DESIGN §3 input validity)."""
     if c["est"] == "multi":
-        if not c["mdocs"] or any(len(d) == 0 for d in c["mdocs"]):
-            return False, "multiset document without any multiset"
+        if not c["mdocs"]:
+            return False, "no document"
     if len(set(_flat_tokens(c))) == 0:
         return False, "no token at all"
     if c["est"] == "ngram":
